@@ -27,6 +27,7 @@ type BlockStep struct {
 	// (k-th most recently produced block as parent).
 	Back int    `json:"back,omitempty"`
 	Skip int    `json:"skip,omitempty"` // empty slots before this block
+	Jit  int    `json:"jit,omitempty"`  // milliseconds past the slot start (0 = on the slot grid)
 	Txs  []TxOp `json:"txs,omitempty"`
 }
 
@@ -82,7 +83,11 @@ func GenSteps(rt *rapid.T, minN, maxN, maxBack, maxTx int) []BlockStep {
 		if rapid.IntRange(0, 5).Draw(rt, "skipq") == 5 {
 			skip = rapid.IntRange(1, 3).Draw(rt, "skip")
 		}
-		steps[i] = BlockStep{Back: back, Skip: skip, Txs: GenTxOps(rt, maxTx)}
+		jit := 0
+		if rapid.IntRange(0, 4).Draw(rt, "jitq") == 4 {
+			jit = rapid.SampledFrom([]int{1, 2999, 3000, 5999}).Draw(rt, "jit")
+		}
+		steps[i] = BlockStep{Back: back, Skip: skip, Jit: jit, Txs: GenTxOps(rt, maxTx)}
 	}
 	return steps
 }
